@@ -39,7 +39,12 @@ type schedGen struct {
 	closeMs   int  // fake ms a Close takes
 	blockPing bool // scripted blocking Pings (`ping r 2` / `pingdone`); VERIF_SCHED_NOBLOCKPING=1 switches them off
 	routed    int  // share (of 8) of requests that go through Server.scheduleRunner
+	mmap      bool // requests set use_mmap explicitly (options classes 2..5)
+	spelling  int  // `envspell`
 }
+
+func (g *schedGen) spell() int    { return g.spelling }
+func (x *schedExtend) spell() int { return x.fixed.spell() }
 
 func newSchedGen(rng *zzverif.Rng) *schedGen {
 	g := &schedGen{rng: rng, tags: map[string]int{}}
@@ -89,10 +94,12 @@ func newSchedGen(rng *zzverif.Rng) *schedGen {
 		g.closeMs = 2
 	}
 	g.blockPing = os.Getenv("VERIF_SCHED_NOBLOCKPING") == ""
+	g.mmap = rng.Chance(1, 3)
+	g.spelling = []int{0, 0, 0, 0, 1, 1, 2, 3, 4}[rng.Intn(9)]
 	g.routed = []int{0, 0, 2, 2, 4, 8}[rng.Intn(6)]
 	var open []schedEv
 	// directed openings (the random walk reaches these states too rarely); the walk continues after them
-	switch rng.Intn(22) {
+	switch rng.Intn(30) {
 	case 2: // a fixed parallel factor, a model that does not fit next to the one still loading: it is put back on the queue
 		// and must still be started with ITS options (NumCtx x factor), and then be reused by the same request again
 		g.cfg.cpu, g.cfg.ngpus, g.gpumem, g.np = 0, 2, 1, []int{2, 2, 4, 0}[rng.Intn(4)]
@@ -140,6 +147,74 @@ func newSchedGen(rng *zzverif.Rng) *schedGen {
 		open = append(open, schedEv{kind: "ping", a: 0, b: 2}, schedEv{kind: sub, a: 0, sess: g.sess()},
 			schedEv{kind: "done", a: 1}, schedEv{kind: "pingdone", a: 0, b: 1})
 		g.tags["open_cancel_during_ping"]++
+	case 12, 13: // a reload (12) / an eviction (13) waits for a BUSY runner; an UNRELATED model is unloaded during the wait (the pending
+		// loop wakes up, must see that its runner is still there and wait again); then the old request ends
+		g.nModels = max(g.nModels, 2)
+		g.nReqs = max(g.nReqs, 4)
+		g.closeMs = 0
+		var how []schedEv // the unrelated unload of model 1's runner (request 1)
+		sb := "L"
+		switch rng.Intn(3) {
+		case 0:
+			sb = "S"
+			how = []schedEv{{kind: "done", a: 1}, {kind: "advance", a: 60}}
+		case 1:
+			sb = "0"
+			how = []schedEv{{kind: "done", a: 1}}
+		default:
+			how = []schedEv{{kind: "done", a: 1}, {kind: "unload", a: 1}}
+		}
+		if rng.Intn(2) == 0 {
+			if g.cfg.maxRunners == 1 {
+				g.cfg.maxRunners = 2
+			}
+			// q0 busy on model 0; q1 on model 1; q2 = model 0 with other options: reload waits for q0; model 1 unloads
+			open = []schedEv{{kind: "submit", a: 0, sess: "L"}, {kind: "loaddone", a: 0, b: 1}, {kind: "submit", a: 1, sess: sb}, {kind: "loaddone", a: 1, b: 1},
+				{kind: "submit", a: 0, b: 1, sess: g.sess()}}
+			open = append(open, how...)
+			open = append(open, schedEv{kind: "loaddone", a: 2, b: 1}, schedEv{kind: "done", a: 0}, schedEv{kind: "advance", a: 20})
+			g.tags["open_reload_wait_unrelated_unload"]++
+		} else {
+			g.nModels, g.cfg.maxRunners = 3, 2
+			// both slots busy, q2 = model 2 waits for the victim; the other runner's request ends with keep_alive 0 / is unloaded
+			open = []schedEv{{kind: "submit", a: 0, sess: "L"}, {kind: "loaddone", a: 0, b: 1}, {kind: "submit", a: 1, sess: sb}, {kind: "loaddone", a: 1, b: 1},
+				{kind: "submit", a: 2, sess: g.sess()}}
+			open = append(open, how...)
+			open = append(open, schedEv{kind: "loaddone", a: 2, b: 1}, schedEv{kind: "done", a: 0}, schedEv{kind: "advance", a: 20})
+			g.tags["open_evict_wait_unrelated_unload"]++
+		}
+	case 14: // Close reports an error (the process could not be stopped cleanly): the runner is gone all the same, Close is not
+		// called again, and the next request for the model gets a fresh runner
+		g.nReqs = max(g.nReqs, 3)
+		open = []schedEv{{kind: "submit", a: 0, sess: zzverif.Pick(rng, []string{"S", "0", "L"})}, {kind: "loaddone", a: 0, b: 1}, {kind: "closefail", a: 0, b: 1}}
+		switch rng.Intn(3) {
+		case 0:
+			open = append(open, schedEv{kind: "done", a: 0}, schedEv{kind: "unload", a: 0})
+		case 1:
+			open = append(open, schedEv{kind: "done", a: 0}, schedEv{kind: "advance", a: 60}, schedEv{kind: "unload", a: 0})
+		default: // reload: other options while it is in use
+			open = append(open, schedEv{kind: "submit", a: 0, b: 1, sess: g.sess()}, schedEv{kind: "done", a: 0})
+		}
+		open = append(open, schedEv{kind: "advance", a: 30}, schedEv{kind: "submit", a: 0, sess: g.sess()}, schedEv{kind: "advance", a: 30})
+		g.tags["open_close_error"]++
+	case 15: // two requests with the same explicit use_mmap value (distinct pointers): one options class, the runner is reused
+		g.mmap = true
+		g.nReqs = max(g.nReqs, 3)
+		c := 2*rng.Range(1, 2) + rng.Intn(2)
+		open = []schedEv{{kind: "submit", a: 0, b: c, sess: zzverif.Pick(rng, []string{"L", "L", "-"})}, {kind: "loaddone", a: 0, b: 1}}
+		if rng.Chance(1, 2) {
+			open = append(open, schedEv{kind: "done", a: 0})
+		}
+		open = append(open, schedEv{kind: zzverif.Pick(rng, []string{"submit", "submitr"}), a: 0, b: c, sess: g.sess()})
+		g.tags["open_same_use_mmap"]++
+	case 16, 17: // a configured runner limit below the automatic default, written the way env files write it
+		g.spelling = rng.Range(1, 4)
+		g.nModels = 3
+		g.cfg.maxRunners = rng.Range(1, 2)
+		g.nReqs = max(g.nReqs, 4)
+		open = []schedEv{{kind: "submit", a: 0, sess: "L"}, {kind: "loaddone", a: 0, b: 1}, {kind: "submit", a: 1, sess: "L"}, {kind: "loaddone", a: 1, b: 1},
+			{kind: "submit", a: 2, sess: "L"}, {kind: "loaddone", a: 2, b: 1}}
+		g.tags["open_spelled_limit"]++
 	case 10, 11: // more idle unloads than the scheduler's channels hold (their capacity is OLLAMA_MAX_QUEUE), none of them awaited
 		// by the pending loop (no eviction wait), then a fresh request: it must be served AND cleaned up like the first
 		g.cfg.maxQueue = rng.Range(1, 2)
@@ -247,6 +322,9 @@ func newSchedGen(rng *zzverif.Rng) *schedGen {
 		g.tags["open_expiry_window"]++
 	}
 	// the environment of the trace comes first
+	if g.spelling != 0 {
+		g.forced = append(g.forced, schedEv{kind: "envspell", a: g.spelling})
+	}
 	if g.np != 1 {
 		g.forced = append(g.forced, schedEv{kind: "parallel", a: g.np})
 	}
@@ -301,10 +379,19 @@ func (g *schedGen) submitFor(r *schedRun, m int, sameOpts bool) schedEv {
 	if id, ok := r.prev.loaded[m]; ok && id >= 0 {
 		opts = r.mocks[id].opts
 		if !sameOpts {
-			opts = 1 - opts
+			if g.mmap && g.rng.Chance(1, 2) {
+				opts = opts%2 + 2*((opts/2+1+g.rng.Intn(2))%3) // another use_mmap value
+			} else {
+				opts ^= 1 // another context size
+			}
 		}
-	} else if g.rng.Chance(1, 4) {
-		opts = 1
+	} else {
+		if g.rng.Chance(1, 4) {
+			opts = 1
+		}
+		if g.mmap {
+			opts += 2 * []int{0, 1, 1, 2, 2}[g.rng.Intn(5)]
+		}
 	}
 	kind := "submit"
 	if g.rng.Intn(8) < g.routed {
@@ -465,6 +552,12 @@ func (g *schedGen) mainEvent(r *schedRun) (schedEv, bool) {
 				b = 1
 			}
 			add(1, "ping", schedEv{kind: "ping", a: m.id, b: b})
+			if !m.closeErr && m.closeCalls == 0 {
+				add(1, "closefail", schedEv{kind: "closefail", a: m.id, b: 1})
+				if left > 0 {
+					add(2, "closefail_unload_submit", schedEv{kind: "closefail", a: m.id, b: 1}, schedEv{kind: "unload", a: m.model}, g.submitFor(r, m.model, true))
+				}
+			}
 			if g.blockPing && !m.pingBlock && left > 0 && r.refs[m.id] != nil && r.prev.refCount[m.id] == 0 && !r.prev.closed[m.id] {
 				// open window: the pending loop is descheduled between needsReload ("usable") and useLoadedRunner while the
 				// idle runner is unloaded by its keep-alive / an explicit unload; the request must then get a fresh runner
